@@ -84,6 +84,10 @@ func genRigCase(r *rng.R) rigIn {
 		nm := 2 + r.Intn(4)
 		for mi := 0; mi < nm; mi++ {
 			verb := rng.Pick(r, []string{"GET", "POST", "PUT", "DELETE", "PATCH"})
+			firstBody := mi == 0 && nc == 2 // each controller opens with a JSON body of ITS package: same parameter name, two import paths
+			if firstBody {
+				verb = "POST"
+			}
 			m := pMethod{Name: fmt.Sprintf("Op%d_%d", ci, mi), File: c.File}
 			params := []rigParam{}
 			segs := []string{fmt.Sprintf("r%d_%d", ci, mi)}
@@ -91,7 +95,7 @@ func genRigCase(r *rng.R) rigIn {
 			// path parameters
 			for k := r.Intn(3); k > 0; k-- {
 				ty := rng.Pick(r, scalarTypes)
-				if ty == "bool" {
+				if ty == "bool" || (firstBody && ty == "Color") {
 					ty = "string"
 				}
 				pp := rigParam{name: fmt.Sprintf("p%d", len(params)), ty: ty, loc: "Path"}
@@ -126,6 +130,9 @@ func genRigCase(r *rng.R) rigIn {
 			for k := r.Intn(4); k > 0; k-- {
 				loc := rng.Pick(r, []string{"Query", "Query", "Header"})
 				ty := rng.Pick(r, scalarTypes)
+				if firstBody && ty == "Color" {
+					ty = "string"
+				}
 				q := rigParam{name: fmt.Sprintf("v%d", len(params)), ty: ty, loc: loc, ptr: r.Chance(1, 3)}
 				q.wire = q.name
 				if r.Chance(1, 2) {
@@ -141,11 +148,15 @@ func genRigCase(r *rng.R) rigIn {
 			}
 			bodyKind := ""
 			if hasBody {
-				switch r.Intn(3) {
+				bk := r.Intn(3)
+				if firstBody {
+					bk = 0
+				}
+				switch bk {
 				case 0:
 					bodyKind = "json"
 					bt := "Item"
-					if ci == 1 || r.Chance(1, 3) {
+					if (firstBody && ci == 1) || (!firstBody && r.Chance(1, 3)) {
 						bt = "other.Parcel"
 					}
 					params = append(params, rigParam{name: "body", ty: bt, loc: "Body", wire: "body"})
